@@ -25,7 +25,7 @@ theorem invO_of_eq (s s' : S) (h : InvO s) (h1 : s'.st = s.st) (h3 : s'.yielded 
   simp only [InvO, outsOf, h1, h3, h7, hrp]
   exact h
 
-theorem invO_doneCallback (s : S) (g : Nat) (h : InvI s) (hO : InvO s) (hgc : g ∉ s.compl) (hga : g ∈ s.args) :
+theorem invO_doneCallback (s : S) (g : Nat) (h : InvI s) (hO : InvO s) (hc : s.compl.count g < s.args.count g) :
     InvO (doneCallback g s) := by
   cases hrp : runningPending s with
   | false =>
@@ -33,10 +33,7 @@ theorem invO_doneCallback (s : S) (g : Nat) (h : InvI s) (hO : InvO s) (hgc : g 
     exact invO_of_eq s _ hO rfl rfl rfl rfl
   | true =>
     obtain ⟨k, hk, ho⟩ := (rp_iff s).1 hrp
-    have hgy : g ∉ s.yielded.map (·.1) := by
-      intro hh; apply hgc; rw [h.w1]; exact List.mem_append_left _ hh
-    obtain ⟨i, hi⟩ := indexOf_of_mem _ _ hga
-    have hl : lookup s.unfinished g = some i := by rw [h.w3 g hgy]; exact hi
+    obtain ⟨i, hl⟩ := pending_lookup s g h hrp hc
     rw [dc_pending_eq g k i s hk ho hl]
     have hO' : s.outs = s.yielded.map (fun p => NextOut.fut (get s.st p.1)) ++ [NextOut.fut none] := by
       have := hO
@@ -77,15 +74,7 @@ theorem invO_next (s : S) (hs : InvS [] s) (h : InvI s) (hO : InvO s) : InvO (ne
         simp only [InvO, outsOf, hrp', if_true]
         rw [← hO']
       | cons f rest =>
-        have hfc : f ∈ s.compl := by rw [h.w1, hf]; simp
-        obtain ⟨hfa, hfd, _⟩ := hs.csub f hfc
-        have hfy : f ∉ s.yielded.map (·.1) := by
-          have hnd := hs.cnd
-          rw [h.w1, hf] at hnd
-          intro hh
-          exact (List.nodup_append.1 hnd).2.2 f hh f (by simp) rfl
-        obtain ⟨i, hi⟩ := indexOf_of_mem _ _ hfa
-        have hl : lookup s.unfinished f = some i := by rw [h.w3 f hfy]; exact hi
+        obtain ⟨i, hl⟩ := finished_lookup s hs h f rest hf
         rw [next_pop_eq s f i rest hdone hc hf hl]
         apply invO_ret
         · show s.outs ++ [NextOut.fut none] = _
@@ -113,7 +102,7 @@ theorem invO_settle (args : List Nat) (s : S) (f : Nat) (o : Outcome) (h : Inv a
       intro p hp'
       have hpc : p.1 ∈ s.compl := by
         rw [h.iter.w1]; exact List.mem_append_left _ (List.mem_map_of_mem hp')
-      have hd := (h.sched.csub _ hpc).2.1
+      have hd := h.sched.cd _ hpc
       have hne : p.1 ≠ f := by
         intro e; rw [e] at hd; exact hd hp
       exact get_set_ne _ _ _ _ hne
@@ -124,10 +113,9 @@ theorem invO_exec (args : List Nat) (t : Tok) (r : List Tok) (s : S) (h : Inv ar
   cases t with
   | cb g =>
     have hcb : cbs s.ready = g :: cbs r := by rw [hr]; rfl
-    have hg := h.sched.rd g (by rw [hcb]; simp)
-    have hgc : g ∉ s.compl := fun hc => (h.sched.csub g hc).2.2 (by rw [hcb]; simp)
+    have hgc := count_lt_of_ready [] s g h.sched (by rw [hcb]; simp)
     exact invO_doneCallback { s with ready := r } g
-      (invI_of_eq s _ h.iter rfl rfl rfl rfl rfl rfl rfl rfl) (invO_of_eq s _ hO rfl rfl rfl rfl) hgc hg.2.1
+      (invI_of_eq s _ h.iter rfl rfl rfl rfl rfl rfl rfl rfl) (invO_of_eq s _ hO rfl rfl rfl rfl) hgc
   | env f o =>
     have hcb : cbs r = cbs s.ready := by rw [hr]; rfl
     exact invO_settle args _ f o
@@ -160,23 +148,22 @@ theorem invO_register (args q : List Nat) (g : Nat) (s : S) (h : Inv args (g :: 
     InvO (register s g) := by
   simp only [register]
   split
-  · have hq := h.sched.qsub g (by simp)
-    exact invO_doneCallback s g h.iter hO hq.2.1 hq.1
+  · have h1 := h.sched.w g
+    simp only [List.count_cons_self] at h1
+    exact invO_doneCallback s g h.iter hO (by omega)
   · exact invO_of_eq s _ hO rfl rfl rfl rfl
 
-theorem invO_foldl_register (args q : List Nat) (s : S) (h : Inv args q s) (hr : s.ready = []) (hO : InvO s) :
+theorem invO_foldl_register (args q : List Nat) (s : S) (h : Inv args q s) (hO : InvO s) :
     InvO (q.foldl register s) := by
   induction q generalizing s with
   | nil => exact hO
-  | cons g q ih =>
-    have := inv_register args q g s h hr
-    exact ih _ this.1 this.2 (invO_register args q g s h hO)
+  | cons g q ih => exact ih _ (inv_register args q g s h) (invO_register args q g s h hO)
 
-theorem reachO (st : List FState) (args : List Nat) (ops : List Op) (hnd : args.Nodup) :
+theorem reachO (st : List FState) (args : List Nat) (ops : List Op) :
     InvO (run (init st args) ops) := by
-  apply invO_run args ops _ (inv_init st args hnd)
+  apply invO_run args ops _ (inv_init st args)
   simp only [init]
-  apply invO_foldl_register args args _ (inv_init0 st args hnd) rfl
+  apply invO_foldl_register args args _ (inv_init0 st args)
   simp [InvO, outsOf, runningPending]
 
 end TornadoModel.C36.Wait
